@@ -28,8 +28,12 @@ def gen(ctx):
                 init[rng.randrange(N)] *= -1
         else:
             init = [rng.choice([-1, 1]) for _ in range(N)]
-        yield dict(kind="hop", P=P, init=init, T=rng.randint(1, 3 * N), seed=rng.randrange(10 ** 6),
-                   pdtype=rng.choice(["int64", "int8", "int16", "int32", "list"]), sdtype=rng.choice(["int32", "int8", "int64", "int16"]))
+        c = dict(kind="hop", P=P, init=init, T=rng.randint(1, 3 * N), seed=rng.randrange(10 ** 6),
+                 pdtype=rng.choice(["int64", "int8", "int16", "int32", "list"]), sdtype=rng.choice(["int32", "int8", "int64", "int16"]))
+        if rng.random() < 0.3:
+            # the net was trained on other patterns before: train() SETS the weights, it does not accumulate
+            c["pre"] = [[rng.choice([-1, 1]) for _ in range(N)] for _ in range(rng.randint(1, 3))]
+        yield c
     for N in ([129, 131] if ctx.tier == "quick" else [129, 131, 255, 257, 301]):
         # sizes at which N-1 no longer fits an int8 / the weighted input of a stored pattern is +-(N-1)
         p = [rng.choice([-1, 1]) for _ in range(N)]
@@ -38,7 +42,10 @@ def gen(ctx):
                 yield dict(kind="hop", P=[p], init=list(start), T=N // 4, seed=rng.randrange(10 ** 6), pdtype=dts[0], sdtype=dts[1])
     for _ in range(ctx.n(100, 1000)):
         N = rng.choice([1, 2, 3, 4, 5, 8, 9])
-        yield dict(kind="train", P=[[rng.choice([-1, 1]) for _ in range(N)] for _ in range(rng.randint(1, 5))])
+        c = dict(kind="train", P=[[rng.choice([-1, 1]) for _ in range(N)] for _ in range(rng.randint(1, 5))])
+        if rng.random() < 0.4:
+            c["pre"] = [[rng.choice([-1, 1]) for _ in range(N)] for _ in range(rng.randint(1, 3))]
+        yield c
 
 
 def order_of(c):
@@ -57,6 +64,8 @@ def run(c):
     import cellpylib as cpl
     if c["kind"] == "train":
         net = cpl.HopfieldNet(len(c["P"][0]))
+        if c.get("pre"):
+            net.train(np.array(c["pre"]))
         net.train(np.array(c["P"]))
         return net, None, None
     saved = np.random.shuffle
@@ -66,6 +75,8 @@ def run(c):
         N = len(c["init"])
         net = cpl.HopfieldNet(N)
         pd = c.get("pdtype", "int64")
+        if c.get("pre"):
+            net.train(np.array(c["pre"]))
         net.train(c["P"] if pd == "list" else np.array(c["P"], dtype=pd))
         ca = np.array([c["init"]], dtype=c.get("sdtype", "int32"))
         res = cpl.evolve(ca, timesteps=c["T"], apply_rule=net.apply_rule, r=net.r)
